@@ -51,15 +51,21 @@ class FileSystemLoader(BaseLoader):
         """
         template_path = Path(template_name)
 
-        if self.ext and not template_path.suffix:
-            template_path = template_path.with_suffix(self.ext)
-
-        if os.path.pardir in template_path.parts:
+        # Don't build a path that escapes the search path. Absolute paths replace
+        # the search path when joined with it.
+        if template_path.is_absolute() or os.path.pardir in template_path.parts:
             raise TemplateNotFoundError(template_name)
+
+        if self.ext and not template_path.suffix:
+            try:
+                template_path = template_path.with_suffix(self.ext)
+            except ValueError as err:
+                # An empty name, for example.
+                raise TemplateNotFoundError(template_name) from err
 
         for path in self.search_path:
             source_path = path.joinpath(template_path)
-            if not source_path.exists():
+            if not source_path.is_file():
                 continue
             return source_path
         raise TemplateNotFoundError(template_name)
